@@ -7,7 +7,7 @@ from .. import boot  # noqa: F401
 from .. import world as W
 from ..corpus import payload_bytes
 from ..rawpeer import RawPeer
-from ..runner import sig_of
+from ..runner import sig_of, rearm
 from ..spyfs import DIR
 
 PROPERTY = "C14"
@@ -280,13 +280,14 @@ async def execute(net, hyg, plan):
 
 
 def run_plan(plan):
+    rearm()
     async def main(net, hyg):
         return await execute(net, hyg, plan)
     res, info = W.run(main, seed=plan.get("seed", 0),
                       net_kwargs=dict(mss=plan.get("mss", 1460), latency=plan.get("latency", 0.001)))
     if res is None:
         return W.failed(info)
-    le = [e for e in info["hygiene"].loop_errors]
+    le = [e for e in info["hygiene"].serious_loop_errors()]
     if le:
         res["violations"].append({"key": "exception-reached-loop", "msg": f"{le[:2]}"})
     return res
